@@ -40,7 +40,14 @@ for r in rows:
 n_c = sum(1 for r in rows if r[2].startswith("caught"))
 n_m = sum(1 for r in rows if r[2].startswith("MISSED"))
 n_n = sum(1 for r in rows if r[2].startswith("not run"))
-out += ["", f"Totals: {len(rows)} seeded changes; {n_c} caught, {n_m} missed, {n_n} for properties that are not claimed.", ""]
+out += ["", f"Totals: {len(rows)} seeded changes; {n_c} caught, {n_m} missed, {n_n} for properties that are not claimed.", "",
+        "**What the misses have in common.** Every miss lies outside a stated claim boundary, not inside a claimed region: (a) whole-search behaviour (C04 check extension in the "
+        "recursive negamax, C08 aspiration/PV interplay) - one negamax node with its move loop is out of symbolic reach; (b) text produced by `format_move` (two C18 seeds) - "
+        "`String`/`format!` code did not finish; (c) a thread race (C12 `try_lock`) - no thread model; (d) two refactorings that change the shape of private items the "
+        "accessors name (C03 combination key, C12 persisted counter-move table): the check then exits 2 with 'harness does not compile against this tree' - inconclusive, "
+        "never a pass. **What the seeds changed in the machinery:** three rounds of strengthening came directly from misses - native replays call `init()`; the C14 replay "
+        "searches GUI-sized clocks; C19 gained `new(0)`; C17 and C13 gained command-level harnesses on the real `Uci::execute` (single command, then two-command sequences, "
+        "then bounded unwinding after a seeded loop made CBMC unroll forever); C16 gained the composition lemma with a native witness search.", ""]
 text = "\n".join(out)
 d = (V / "DESIGN.md").read_text()
 if "## 10. Seeded changes" in d:
